@@ -240,7 +240,7 @@ func main() {
 	r := ev.Start("C05", "model_checking")
 	var scs []*mcx.Scenario
 	types := []message.Type{message.Confirmable, message.NonConfirmable}
-	depth := ev.Pick(r, 5, 7)
+	depth := ev.Pick(r, 5, 8)
 	for _, t1 := range types {
 		for _, r1 := range []bool{true, false} {
 			for _, t2 := range types {
